@@ -1105,10 +1105,45 @@ def _find(ex, self_val, args, kwargs, fr):
     return VInt(z3.IndexOf(z_str(self_val.v), z_str(args[0].v), 0))
 
 
+def _flat_concat(t):
+    out = []
+
+    def walk(x):
+        if z3.is_app(x) and x.decl().kind() == z3.Z3_OP_SEQ_CONCAT:
+            for c in x.children():
+                walk(c)
+        else:
+            out.append(x)
+    walk(t)
+    return out
+
+
+def literal_replace(ex, s_term, old: str, new_piece):
+    """replace-all on a concatenation whose SYMBOLIC parts are assumed not to contain `old` (assumption recorded):
+    only the literal parts are rewritten. new_piece: str | z3 String term."""
+    parts = []
+    for x in _flat_concat(s_term):
+        if z3.is_string_value(x):
+            lit = x.as_string()
+            segs = lit.split(old)
+            for i, seg in enumerate(segs):
+                if i:
+                    parts.append(new_piece)
+                if seg:
+                    parts.append(seg)
+        else:
+            ex.st.assume(z3.Not(z3.Contains(x, z3.StringVal(old))))
+            ex.st.assumptions.add(f"symbolic path / name components contain no {old!r}")
+            parts.append(x)
+    return concat_str(parts)
+
+
 @libfn("str.replace")
 def _replace(ex, self_val, args, kwargs, fr):
     if _sconc(self_val, args[0], args[1]):
         return VStr(self_val.v.replace(args[0].v, args[1].v))
+    if _sconc(args[0], args[1]) and not is_conc(self_val.v):
+        return VStr(literal_replace(ex, self_val.v, args[0].v, args[1].v))
     raise Unsupported("str.replace on symbolic string (replace-all is not expressible)")
 
 
@@ -1133,6 +1168,16 @@ for _n in ("lower", "upper", "strip", "capitalize", "title", "lstrip", "rstrip",
 
 @libfn("str.format")
 def _format(ex, self_val, args, kwargs, fr):
+    if len(args) == 1 and not kwargs:
+        piece = ex.format_value(args[0], -1, fr)
+        if is_conc(self_val.v):
+            if self_val.v.count("{}") == 1:
+                a, b = self_val.v.split("{}")
+                return VStr(concat_str([a, piece, b]))
+        else:
+            lits = [x.as_string() for x in _flat_concat(self_val.v) if z3.is_string_value(x)]
+            if sum(l.count("{}") for l in lits) == 1:
+                return VStr(literal_replace(ex, self_val.v, "{}", piece))
     return VStr(ex.st.fresh_str("fmt"))
 
 
